@@ -53,6 +53,14 @@ def check(case, obs):
     fixed, free = obs["fixed"], obs["free"]
     has_feat = len(obs["feat"]) > 0
 
+    # ---- every value is a number
+    if not np.all(np.isfinite(final)):
+        i = int(np.argmin(np.isfinite(final)))
+        if case["n_smooth"] > 0 and has_feat and np.all(np.isfinite(var0)) and "solve" in obs \
+                and np.all(np.isfinite(np.array(obs["solve"]["x"], dtype=float))):
+            return [("unit/nan-smoothing", "element %d is NaN after the smoothing solves (the first solve was finite): "
+                                           "lapI - alpha*AI is singular for the estimated attach weight alpha" % i)]
+        return [("unit/nonfinite", "element %d of the field is not a finite number" % i)]
     # ---- unit modulus on every element
     mod = np.abs(final)
     bad = [i for i in range(n) if abs(mod[i] - 1) > 1e-8]
@@ -60,7 +68,12 @@ def check(case, obs):
         i = bad[0]
         if mod[i] < 1e-8:
             cs = vertex_contributions(case, obs, i) if (elem == "vertices" and has_feat and i in set(fixed)) else []
-            if len(cs) >= 2 and abs(sum(cs)) < 1e-6:
+            guarded = case.get("smooth_normals", True) and order % 2 != 1
+            if len(cs) >= 2 and abs(sum(cs)) < 1e-6 and guarded:
+                fails.append(("unit/zero-constraint-guarded-branch",
+                              "element %d (constrained) has modulus %.3g: in the even-order smooth_normals branch a contribution "
+                              "that would cancel the accumulated constraint must be skipped, yet the constraint is 0" % (i, mod[i])))
+            elif len(cs) >= 2 and abs(sum(cs)) < 1e-6:
                 fails.append(("unit/zero-constraint", "element %d (constrained) has modulus %.3g: the constraints of its feature "
                                                       "edges cancel and are left at 0" % (i, mod[i])))
             else:
@@ -211,7 +224,40 @@ def check(case, obs):
                 if s[v] != 0 and abs(s[v] / q - round(s[v] / q)) > 1e-6:
                     fails.append(("index/quantum", "interior vertex %d has index %.9g, not a multiple of 4/%d" % (v, s[v], order)))
                     break
+    # ---- vertex-based field: the stored face indices are +1 / -1 / 0 by the sign of (sum of the edge rotations around the
+    #      face + its curvature), recomputed here from the observed rotations - nothing else may be stored
+    if elem == "vertices" and "curv" in obs:
+        eid = {}
+        for k, (a, b) in enumerate(obs["edges"]):
+            eid[(a, b)] = (k, -1.0)     # the attribute holds -rot for the stored orientation
+            eid[(b, a)] = (k, 1.0)
+        for t, f in enumerate(F):
+            ang = obs["curv"][t]
+            for k in range(3):
+                ie, sg = eid[(f[k], f[(k + 1) % 3])]
+                ang += sg * obs["rot"][ie]
+            if abs(abs(ang) - 1e-2) < 1e-6:
+                continue
+            want = 1 if ang > 1e-2 else (-1 if ang < -1e-2 else 0)
+            if obs["singuls"][t] != want:
+                fails.append(("index/vertex-stored", "face %d carries the index %s, the field that was asked for gives %d (angle %.6g)"
+                              % (t, obs["singuls"][t], want, ang)))
+                break
     return fails
+
+
+def history_check(case, obs, fresh):
+    """a field computed and flagged on a mesh object that carried earlier fields, against the same computation on a fresh mesh"""
+    a = np.array([complex(x, y) for x, y in obs["final"]])
+    b = np.array([complex(x, y) for x, y in fresh["final"]])
+    if a.shape != b.shape or np.abs(a - b).max() > 1e-12:
+        return None   # smoothing weights come from a randomly started eigsh: fields differ in the last digits, ties may flip
+    s1, s2 = np.array(obs["singuls"], dtype=float), np.array(fresh["singuls"], dtype=float)
+    if np.abs(s1 - s2).max() > 1e-9:
+        k = int(np.argmax(np.abs(s1 - s2)))
+        return ("index/history", "the same field (order %d) flagged on a mesh that carried an earlier field stores index %.6g at element %d, "
+                                 "on a fresh mesh %.6g" % (case["order"], s1[k], k, s2[k]))
+    return None
 
 
 # ---------------------------------------------------------------------- metamorphic: renumbering / face rotation
